@@ -23,6 +23,12 @@ def sh(cmd, cwd=None, env=None, timeout=3600):
                        text=True, timeout=timeout)
     return p.returncode, p.stdout
 
+def srcdir(pid, m):
+    """where the author's deliverables live: round 1 = /tmp/mut-Cxx/out/m1|m2, round 2 (m3) = /tmp/mut2-Cxx/out/m1"""
+    if m == "m3":
+        return "/tmp/mut2-%s" % pid, "/tmp/mut2-%s/out/m1" % pid
+    return "/tmp/mut-%s" % pid, "/tmp/mut-%s/out/%s" % (pid, m)
+
 def load(key):
     os.makedirs(RES, exist_ok=True)
     f = "%s/%s.json" % (RES, key)
@@ -38,8 +44,7 @@ def suite_summary(out):
     return oks, bad, failed
 
 def confirm(pid, m):
-    w = "/tmp/mut-" + pid
-    o = "%s/out/%s" % (w, m)
+    w, o = srcdir(pid, m)
     key = "%s-%s" % (pid, m)
     d = load(key)
     sh("git checkout -- . && rm -f tests/seed_demo.rs", cwd=w)
@@ -73,7 +78,7 @@ def confirm(pid, m):
 def run(pid, m, checks):
     key = "%s-%s" % (pid, m)
     d = load(key)
-    patch = "/tmp/mut-%s/out/%s/patch.diff" % (pid, m)
+    patch = srcdir(pid, m)[1] + "/patch.diff"
     if not os.path.exists(patch):
         patch = "/verif/seeded/%s/patch.diff" % key
     rc, out = sh("git -C /repo status --porcelain --untracked-files=no")
@@ -116,7 +121,7 @@ def run(pid, m, checks):
 def store(pid, m):
     key = "%s-%s" % (pid, m)
     d = load(key)
-    o = "/tmp/mut-%s/out/%s" % (pid, m)
+    o = srcdir(pid, m)[1]
     dst = "/verif/seeded/" + key
     os.makedirs(dst, exist_ok=True)
     if os.path.isdir(o):
